@@ -10,7 +10,13 @@ Ev == Tr[l]
 Is(e) == l <= Len(Tr) /\ Tr[l].ev = e /\ l' = l + 1
 Check(name, c) == c \/ (PrintT(<<"REJECT", tid, l, name>>) /\ FALSE)
 All(t) == \A i \in DOMAIN t : t[i]
-Verdict == IF tid > 0 /\ status = "ok" THEN PrintT(<<"ACCEPT", tid>>) ELSE TRUE
+\* complete: refused, crashed, or one release call for every step of the run
+Complete == \/ Tr[l - 1].ev \in {"refused", "crash"}
+            \/ (Tr[l - 1].ev = "release" /\ Tr[l - 1].step = Nsteps(S.cfg) - 1)
+            \/ (Tr[l - 1].ev = "made" /\ Nsteps(S.cfg) = 0)
+Verdict == IF tid = 0 THEN TRUE
+           ELSE IF ~Complete THEN PrintT(<<"REJECT", tid, l, "trace.incomplete">>)
+           ELSE IF status = "ok" THEN PrintT(<<"ACCEPT", tid>>) ELSE TRUE
 Mark(ok) == status' = IF ok THEN status ELSE "rej"
 
 Init == l = 1 /\ tid = 0 /\ status = "ok" /\ S = [none |-> 0] /\ npid = 0 /\ step = -1
@@ -37,6 +43,7 @@ Rel == /\ Is("release")
               new  == Ev.new
               n    == IF Len(new) < Len(rows) THEN Len(new) ELSE Len(rows)
           IN /\ Mark(All(<<Check("release.step", Ev.step = step + 1),
+                           Check("release.after_start_up", Tr[l - 1].ev \in {"made", "release"}),
                            Check("release.count", Len(new) = Len(rows)),
                            Check("release.no_off_lattice", ~Ev.off),
                            Check("release.pids", \A i \in 1..Len(new) : new[i].pid = npid + i - 1),
